@@ -419,6 +419,14 @@ def implied(g, c):
         if r is not None: return not r
     return None
 
+_implied_impl = implied
+def implied(g, c):
+    r = _implied_impl(g, c)
+    if DEBUG_MODEL is not None and r is not None and evaluate(g, DEBUG_MODEL, DEBUG_CACHE) and evaluate(c, DEBUG_MODEL, DEBUG_CACHE) != r:
+        import traceback
+        print('UNSOUND IMPLIED', r, 'g=', show(g, 2)[:300], 'c=', show(c, 3)[:300]); traceback.print_stack(limit=7)
+    return r
+
 def restrict(e, g, depth=64):
     """simplify e under the assumption g (top-level ite chain only)"""
     if g is TRUE: return e
